@@ -10,6 +10,7 @@ module owning the functions under contract.  Unit header and harness annotations
     //# assets: tiny btree               (shared verification-only modules to mount as well)
     //# attach: <file> | <fn anchor regex> | <attribute line>      (function-contract attributes)
     //# subst: <file> | <exact old line> | <new text>              (cfg-split imports only)
+    //# subst_opt: same, but skipped silently when the old text is absent (alternative import spellings)
 
     //# harness: fn=<function under contract>; label=complete|bounded(..)|closed; tier=quick|thorough;
     //#          props=C10,C11; timeout=120; panics=ignore; replay=no; finding=<key>
@@ -82,8 +83,8 @@ class Unit:
             k, v = m.group(1), m.group(2).strip()
             if k == "attach":
                 self.attach.append([x.strip() for x in v.split(" | ")])
-            elif k == "subst":
-                self.subst.append([x.strip() for x in v.split(" | ")])
+            elif k in ("subst", "subst_opt"):
+                self.subst.append([x.strip() for x in v.split(" | ")] + [k == "subst_opt"])
             elif k != "harness":
                 self.hdr[k] = v
         self.name = self.hdr["unit"]
@@ -210,10 +211,12 @@ def splice(scratch, units, report):
             src = src[:ls] + indent + attr + "\n" + src[ls:]
             open(p, "w").write(src)
             report.append({"kind": "attach", "file": file, "anchor": anchor, "added": attr})
-        for file, old, new in u.subst:
+        for file, old, new, optional in u.subst:
             p = os.path.join(scratch, file)
             src = open(p).read()
             if src.count(old) != 1:
+                if optional and src.count(old) == 0:
+                    continue
                 raise Undecided(f"anchor-lost: {file}: import line {old!r} found {src.count(old)} times")
             src = src.replace(old, "" if new == "<empty>" else new.replace("\\n", "\n"))
             open(p, "w").write(src)
